@@ -321,24 +321,34 @@ def oracle(ctx):
                 open(os.path.join(other, name), 'w').write('<b>OTHER</b>')
             open(os.path.join(own, 'main.pt'), 'w').write('<div tal:define="t load: %s">${structure: t()}</div>' % name)
             prepend = ctx.rng.random() < 0.7
+            # the template's own directory may itself be on the search path, after another directory that has the name too
+            layout = ctx.rng.choice(['other', 'other+own', 'own+other', 'loader', 'loader'])
+            sp = {'other': [other], 'other+own': [other, own], 'own+other': [own, other], 'loader': [other, own]}[layout]
 
             class T(PageTemplateFile):
                 prepend_relative_search_path = prepend
             try:
-                got = T(os.path.join(own, 'main.pt'), search_path=[other])()
+                if layout == 'loader':
+                    from chameleon import PageTemplateLoader
+                    prepend = True          # the loader's templates use the default
+                    got = PageTemplateLoader(list(sp)).load('main.pt')()
+                else:
+                    got = T(os.path.join(own, 'main.pt'), search_path=list(sp))()
             except Exception as e:
                 got = type(e).__name__
             ctx.count('evaluations')
             nt += 1
             if prepend and in_own:
                 exp = '<div><b>OWN</b></div>'
-            elif in_other:
-                exp = '<div><b>OTHER</b></div>'
             else:
-                exp = 'ValueError'
+                first = [dd for dd in sp if (dd == own and in_own) or (dd == other and in_other)]
+                if first:
+                    exp = '<div><b>%s</b></div>' % ('OWN' if first[0] == own else 'OTHER')
+                else:
+                    exp = 'ValueError'
             if got != exp:
                 ctx.violation('a load: expression inside a file template must look next to that template first', {'own': in_own, 'other': in_other,
-                              'prepend_relative_search_path': prepend, 'name': name}, expected=exp, actual=got)
+                              'prepend_relative_search_path': prepend, 'name': name, 'search_path': layout}, expected=exp, actual=got)
             shutil.rmtree(base, ignore_errors=True)
         # (4) package-relative specs: `pkg:path` as a name, and as an entry of the search path
         nt += package_cases(ctx, d)
